@@ -73,7 +73,8 @@ def check(ctx, tbs):
                                   f'{name}: the tag block {tb!r} ({label}) makes '
                                   f'{"put_sentence" if name.startswith("Tag") else "the reader"} raise {st[1]}', dict(rp, entry=name))
         accepted = isinstance(b, list)
-        want_msgs = [it.bare for p, it in enumerate(items) if accepted or p != badpos]
+        # ($PGHP wrapper sentences, which C17.mk_items mixes in now and then, are sentences for the queue but no messages)
+        want_msgs = [it.bare for p, it in enumerate(items) if (accepted or p != badpos) and not it.bare.startswith(b'$')]
         for name, msgs, steps in ((('IterMessages', i_msgs, i_steps), ('NMEAQueue', q_msgs, q_steps)) if tb else ()):
             if all(isinstance(st, list) for st in steps) and msgs != want_msgs:
                 rep.violation({'entry': name, 'component': 'messages', 'kind': 'lost'},
